@@ -52,10 +52,26 @@ func (c Comp) String() string { return fmt.Sprintf("%s-q%d", c.Algo, c.Quality) 
 
 var quietConsumer = &state.Consumer{}
 
-// sliceReader returns adversarially short reads.
+// sliceReader returns adversarially short reads and, when eofWithData is set, hands out the last bytes of the
+// file together with io.EOF (as io.Reader allows and zip/deflate readers do).
 type sliceReader struct {
-	r   io.ReadSeeker
-	rng *wvlib.Rng
+	r           io.ReadSeeker
+	rng         *wvlib.Rng
+	eofWithData bool
+	end         int64
+}
+
+func newSliceReader(rs io.ReadSeeker, rng *wvlib.Rng) *sliceReader {
+	s := &sliceReader{r: rs, rng: rng}
+	if rng != nil && rng.Intn(2) == 0 {
+		if cur, err := rs.Seek(0, io.SeekCurrent); err == nil {
+			if end, err := rs.Seek(0, io.SeekEnd); err == nil {
+				s.eofWithData, s.end = true, end
+			}
+			rs.Seek(cur, io.SeekStart)
+		}
+	}
+	return s
 }
 
 func (s *sliceReader) Read(p []byte) (int, error) {
@@ -66,7 +82,13 @@ func (s *sliceReader) Read(p []byte) (int, error) {
 		}
 		p = p[:n]
 	}
-	return s.r.Read(p)
+	n, err := s.r.Read(p)
+	if err == nil && n > 0 && s.eofWithData {
+		if cur, serr := s.r.Seek(0, io.SeekCurrent); serr == nil && cur == s.end {
+			return n, io.EOF
+		}
+	}
+	return n, err
 }
 func (s *sliceReader) Seek(o int64, w int) (int64, error) { return s.r.Seek(o, w) }
 
@@ -84,22 +106,22 @@ func (p *slicingPool) GetReader(i int64) (io.Reader, error) {
 	if _, err := rs.Seek(0, io.SeekStart); err != nil {
 		return nil, err
 	}
-	return &sliceReader{r: rs, rng: p.rng}, nil
+	return newSliceReader(rs, p.rng), nil
 }
 func (p *slicingPool) GetReadSeeker(i int64) (io.ReadSeeker, error) {
 	rs, err := p.Pool.GetReadSeeker(i)
 	if err != nil {
 		return nil, err
 	}
-	return &sliceReader{r: rs, rng: p.rng}, nil
+	return newSliceReader(rs, p.rng), nil
 }
 
 // DiffResult is what a real diff run produced.
 type DiffResult struct {
-	Patch, Sig       []byte
-	Old, New         *tlc.Container
-	OldSig           []wsync.BlockHash
-	Fresh, Reused    int64
+	Patch, Sig    []byte
+	Old, New      *tlc.Container
+	OldSig        []wsync.BlockHash
+	Fresh, Reused int64
 }
 
 // diffDirs runs the real signature + diff. slice != nil makes the source pool return short reads.
@@ -133,10 +155,10 @@ func diffDirs(oldDir, newDir string, comp Comp, slice *wvlib.Rng) (*DiffResult, 
 
 // PMsg is a decoded patch message in canonical form.
 type PMsg struct {
-	Kind string // H, O (sync op), B (bsdiff header), C (control)
-	A, B, C, D int64
+	Kind        string // H, O (sync op), B (bsdiff header), C (control)
+	A, B, C, D  int64
 	Data, Data2 []byte
-	Eof  bool
+	Eof         bool
 }
 
 // decodePatch reads a patch with the real wire reader (after real decompression) into containers + messages.
